@@ -23,41 +23,64 @@ LEVEL_TEXT = ("Theorems over heaps of any size and shape (cyclic, dangling, self
               "-> target -> resolve_target, the tree recursion of resolve_module_aliases and the resolve_aliases while-loop all return "
               "with fuel #aliases+1 / 2#aliases+3 / #nodes+1 / #aliases+2; every outcome is success, AliasResolutionError or "
               "CyclicAliasError; flags are restored, stored links never change, a failed resolve_target leaves the alias unlinked and "
-              "every stored link keeps leading to an object (all-or-nothing, for all heaps, modulo the one decidable gap predicate "
-              "targets_complete = false that wildcard expansion can produce). The fixpoint is proved in conditional form. The model is "
-              "tied to the code by abstracting the loaded tree of every generated package set into a heap term and comparing, operation "
-              "by operation, unresolved sets, iteration counts, per-alias links, flags and dereference outcomes (incl. which alias an "
-              "AliasResolutionError names).")
+              "every stored link keeps leading to an object (all-or-nothing, for all heaps, modulo the decidable gap predicate "
+              "targets_complete = false that wildcard expansion can produce). Fixpoint: proved unconditionally (no quiet-pass hypothesis) "
+              "for every heap on which no target path runs through an alias member and stored chains are complete with unique paths - "
+              "resolve_aliases returns normally, a further pass changes nothing and reports the same set, a second call returns the same "
+              "set within 2 iterations; on those heaps the outcome of resolve_target is proved equal to a pure static walk and a failed "
+              "resolution is proved to fail identically after any further resolutions. For heaps walked through alias members the "
+              "fixpoint stays in conditional form. unique_paths is shown necessary by a witness heap abstracted from a real package. "
+              "The model is tied to the code by abstracting the loaded tree of every generated package set into a heap term and "
+              "comparing, operation by operation, unresolved sets, iteration counts, per-alias links, flags and dereference outcomes "
+              "(incl. which alias an AliasResolutionError names), on trees as load() leaves them and on pristine trees (nothing "
+              "dereferenced yet); the static walk over the initial heap is compared with the dereference outcomes after resolution; "
+              "the known-gap attribution of every partial chain is computed by the extracted model (link_verdict).")
 LEVEL_NOTE = ("Modelled and verified: dereferencing/resolution (models.py Alias.*, mixins.py get_member) and resolve_module_aliases / "
               "resolve_aliases with implicit=True, external=False, as repaired by the fix commits for C06-F1, F2, F4, F5. NOT modelled: "
               "load(), expand_exports, expand_wildcards (any exception leaving them is a violation; the heap handed to the model is "
-              "abstracted after wildcard expansion has stabilised, graphs where it does not are only evaluated directly) and side-loading "
-              "during resolution (external != False: the fixpoint is evaluated directly on the implementation there). C06_fixpoint_partial "
-              "is partial (conditional on a quiet pass; the unconditional statement is checked at run time on every explored heap, model "
-              "and implementation). Known: C06-F3 (wildcard-expanded aliases are created resolved onto chains that may dangle). Trusted: "
-              "Coq kernel, extraction, the tree->heap abstraction (Snapshot) and the comparison code in this module.")
+              "abstracted after wildcard expansion has stabilised, graphs where it does not are only evaluated directly; whether the "
+              "second resolve_aliases leaves the whole tree unchanged is evaluated directly) and side-loading during resolution "
+              "(external != False: termination, error discipline and the fixpoint over three calls are evaluated directly on the "
+              "implementation, with and without wildcard imports between the packages). C06_fixpoint_direct_heaps needs direct, "
+              "chains_complete and unique_paths; C06_fixpoint_partial (all heaps) is conditional on a quiet pass; the unconditional "
+              "statement is checked at run time on every explored heap, model and implementation. Known: C06-F3 (wildcard-expanded "
+              "aliases are created resolved onto chains that may dangle), C06-F9 (false CyclicAliasError through a replaced alias with the "
+              "same path), C06-F6/F7/F8 (side-loading re-enters an object under iteration; wildcards of side-loaded packages expanded "
+              "one call late; re-imported wildcard pseudo-members grow at every call) - F6, F7, F8 have fix commits prepared. "
+              "Trusted: Coq kernel, extraction, the tree->heap abstraction (Snapshot), the comparison code and the trace-based "
+              "classifiers of F6/F7/F8 in this module.")
 MODEL = ("Model.C06_alias", "run_C06")
-COQ_TARGETS = ["Proofs/C06_alias.vo"]
+COQ_TARGETS = ["Proofs/C06_alias.vo", "Proofs/C06_fixpoint.vo"]
 RULE = ("import graphs written as packages under the scratch directory and loaded with GriffeLoader(allow_inspection=False): "
         "(1) every assignment of {nothing, def, from T import n [as name]} to the (module,name) slots of 2 modules x 2 names, T over modules + "
         "missing module (4096 graphs; quick: seeded sample) and the same with a module alias p.m to walk through (10^4; quick: sample); "
         "(2) 3 modules x 1 name with one optional binding and one optional wildcard import per module in both orders (sampled); "
-        "(3) seeded random graphs over 5 and 6 modules (defs, from-imports plain/renamed/relative/through a member/missing/other package, "
-        "import [as], wildcards, __all__, a class importing in its body), with and without wildcards; "
+        "(3) seeded random graphs over 5 and 6 modules (defs, from-imports plain/renamed/relative/through a member/missing/other package/"
+        "of submodules, import [as], wildcards, __all__ literal or built from other modules' __all__ (x.__all__ + [...], +=, starred), "
+        "a class importing in its body), with and without wildcards; "
+        "(3b) exports family: 3 or 4 modules, each binding names to the other modules (and itself) by the real path, a re-export of "
+        "another module (module alias chains) or import-as, and building __all__ from the __all__ of what those names denote "
+        "(reference cycles, cycles only through module aliases, self and dangling references); "
         "(4) random graphs over packages p, q, r loaded in every order of every 2- or 3-subset into one collection (quick: 4 orders each), "
         "with or without resolve_aliases between loads; then resolve, resolve, dereference every alias, resolve (every third case first "
-        "dereferences lazily one alias at a time, recording links after each); "
-        "(5) implementation only: random wildcard-free graphs over packages p, _p, q of which one is loaded and the others are side-loaded "
-        "during resolve_aliases(external=True / None), three calls, with resolve_module_aliases/load traced through the public methods. "
+        "dereferences lazily one alias at a time, recording links after each); every second case of (1)-(4) runs on the pristine tree "
+        "(expand_exports / expand_wildcards overridden by no-ops on the loader, so that no alias has been dereferenced before the first operation); "
+        "(5) implementation only: random graphs over packages p, _p, q of which one is loaded and the others are side-loaded "
+        "during resolve_aliases(external=True / None), three calls, with load / expand_wildcards / resolve_module_aliases traced through the "
+        "public methods - wildcard-free, and (5b) with wildcard imports between the packages. "
         "non-trivial = at least one alias or an escape; "
         "distinct by canonical case value")
 TRUSTED = ["abstraction: Snapshot walks collection.members / Object.members and reads Alias._target, target_path, _passed_through, name; "
            "aliases manufactured by Alias.members are encoded as (path, member) references",
-           "known-finding attribution of C06-F3 is cross-checked against the extracted model's targets_complete / unique_paths verdicts"]
+           "known-finding attribution of C06-F3 / C06-F9 is the extracted model's link_verdict, required to agree with the harness mirror classify_partial",
+           "known-finding attribution of C06-F6 / F7 / F8 (side-loading, wildcard expansion: not modelled) are harness predicates over the traced calls and the live tree"]
 ASSUMPTIONS = ["packages are static source trees with __init__.py (no namespace packages, stubs or inspection)",
-               "model correspondence uses resolve_aliases(implicit=True, external=False); external=True/None only in the implementation-only side-loading stream"]
+               "model correspondence uses resolve_aliases(implicit=True, external=False); external=True/None only in the implementation-only side-loading streams",
+               "pristine cases override the public methods expand_exports / expand_wildcards on the loader instance (as a subclass could)"]
 
 ALARM_S = 4
+ALARM_RETRY_S = 40          # a watchdog hit is re-run once with this limit before it counts (the machine may be stalled)
+_alarm_s = [ALARM_S]
 
 
 # --------------------------------------------------------------------------------------------------------------------
@@ -100,7 +123,7 @@ def guarded(fn):
     """Run fn() under the watchdog. Returns ('ok', value) | ('timeout',) | ('recursion',) | ('raise', [type, frames], msg)."""
     from _griffe.exceptions import AliasResolutionError, CyclicAliasError  # noqa: F401
     old = signal.signal(signal.SIGALRM, _alarm)
-    signal.alarm(ALARM_S)
+    signal.alarm(_alarm_s[0])
     try:
         return ("ok", fn())
     except Watchdog:
@@ -204,8 +227,14 @@ def structure(loader):
     return [s.collection, s.nodes]
 
 
-def run_impl(files: dict, loads: list, root: str, interleave: bool = False, ops=("resolve", "resolve", "deref", "resolve")):
+def run_impl(files: dict, loads: list, root: str, interleave: bool = False, ops=("resolve", "resolve", "deref", "resolve"),
+             pristine: bool = False):
     """Load the packages in `loads` order into one collection, then run `ops`. Everything observable is returned.
+
+    pristine: expand_exports / expand_wildcards are overridden by no-ops on the loader instance, so that the tree is
+    exactly what the visitor built: no alias has been dereferenced yet (since expand_exports visits `module.modules`,
+    which asks every member for its kind, a plain load() leaves most resolvable aliases already resolved) and the
+    operations start from a heap on which everything is still to be resolved.
 
     rec = {"stage": None | name of the stage that failed, "fail": guarded() failure tuple,
            "heap": model input term (abstracted before the first op), "obs": [per-op observation], "states": [...]}"""
@@ -215,6 +244,9 @@ def run_impl(files: dict, loads: list, root: str, interleave: bool = False, ops=
            "structs": [], "leaked": []}
     loader = griffe.GriffeLoader(search_paths=[root], allow_inspection=False)
     rec["loader"] = loader
+    if pristine:
+        loader.expand_exports = lambda *a, **k: None
+        loader.expand_wildcards = lambda *a, **k: None
 
     def escaped(stage, r):
         """Record an escape; abstract the collection as it is now so that the model can confirm the error is genuine."""
@@ -481,13 +513,50 @@ def stored_chain(snap, i):
 
 
 def classify_partial(snap, i):
-    """Alias i has a stored link yet dereferencing it raises (dangling or cyclic chain). Known finding id or None.
-    Only links that wildcard expansion stored before any resolution are known (C06-F3); resolve_target never stores
-    a link onto a chain that does not reach an object (C06_all_or_nothing_modulo_known)."""
+    """Alias i has a stored link yet dereferencing it raises. Known finding id or None (Python mirror of the model's
+    link_verdict, which decides wherever the case reaches the model).
+    C06-F9: followed object by object the stored chain does reach a real object - two distinct aliases of the chain
+            merely share a path (one of them was replaced in the tree by a wildcard expansion), which final_target's
+            paths_seen takes for a cycle.
+    C06-F3: the chain runs through a link that wildcard expansion stored before any resolution; resolve_target never
+            stores a link onto a chain that does not reach an object (C06_all_or_nothing_modulo_known)."""
+    o, met = snap.objs[i], set()
+    while o.is_alias and o._target is not None and id(o) not in met and len(met) < 4 * len(snap.nodes) + 4:
+        met.add(id(o))
+        o = o._target
+    if not o.is_alias:
+        return "C06-F9"
     chain, _virt = stored_chain(snap, i)
     if any(snap.nodes[k][3] for k in chain):
         return "C06-F3"
     return None
+
+
+VERDICT_FINDING = {"false-cycle": "C06-F9", "preresolved": "C06-F3"}
+
+
+def report_partial(ctx, case, rec, verdicts=None):
+    """Aliases that are resolved yet do not dereference: attribute to a known finding only where the faithful model
+    reproduces the failure and names the gap (link_verdict on the heap the model's own run left), and the Python
+    mirror agrees; without model verdicts (tree not abstractable) the mirror alone decides."""
+    snap = rec["snap"]
+    order = {i: k for k, i in enumerate(snap.alias_ids())}
+    for path, (i, d, tgt) in rec.get("partial", {}).items():
+        py = classify_partial(snap, i)
+        if verdicts is None:
+            finding = py
+        else:
+            v = verdicts[order[i]] if order[i] < len(verdicts) else None
+            finding = VERDICT_FINDING.get(v)
+            ctx.observe("partial_chain_model_verdict", str(v))
+            if finding != py:
+                ctx.tie_failure("correspondence", "known-gap classifier: model link_verdict vs harness mirror",
+                                {"alias": path, "model": v, "mirror": py}, case)
+                finding = None
+        if finding is not None and finding not in ctx.known:
+            finding = None
+        ctx.observe("partial_chain", finding or "unclassified")
+        ctx.property_failure(case, {"alias": path, "resolved_but": d, "link": tgt}, finding=finding)
 
 
 def in_tree(snap, i):
@@ -529,9 +598,7 @@ def evaluate(ctx, files, loads, rec, case):
             ctx.observe("left_unresolved", path.split(".")[-1])
             ctx.property_failure(case, {"alias": path, "left_unresolved_by_resolve_aliases_but_dereferences_to": d}, finding=None)
         if tgt and d[0] in ("are", "cyc"):
-            partial[path] = classify_partial(snap, i)
-            ctx.observe("partial_chain", partial[path] or "unclassified")
-            ctx.property_failure(case, {"alias": path, "resolved_but": d, "link": tgt}, finding=partial[path])
+            partial[path] = (i, d, tgt)                 # reported by report_partial once the model has given its verdict
     for st in states:
         for path, _t, passed in st:
             if passed:
@@ -557,7 +624,7 @@ def evaluate(ctx, files, loads, rec, case):
         ctx.property_failure(case, {"fixpoint": "second resolve_aliases changed the tree", "leaked_wildcards": leaked[:4],
                                     "first_difference": diff, "nodes": [len(s1[1]), len(s2[1])]}, finding=known)
     ctx.observe("iterations_first", obs[0][2])
-    rec["attributed"] = sorted({f for f in partial.values() if f})
+    rec["partial"] = partial
     return True
 
 
@@ -572,6 +639,8 @@ def expected_trace(rec):
 def normalise_model(mo):
     out = []
     for x in mo[2:]:
+        if x and x[0] == "verdicts":
+            continue
         if x and x[0] == "resolve":
             out.append(["resolve", sorted(set(x[1])), x[2]])
         else:
@@ -583,7 +652,7 @@ OPS = ["resolve", "resolve", "deref", "resolve"]
 OPS_TRACE = ["deref-trace"] + OPS                     # lazy dereferencing first, one alias at a time
 
 
-def run_batch(ctx, batch, label, use_model=True):
+def run_batch(ctx, batch, label, use_model=True, pristine_share=2):
     """batch: list of (files, loads, interleave). Implementation first, then one model call for the whole batch."""
     root = str(ctx.scratch / "pk")
     live = []
@@ -591,30 +660,54 @@ def run_batch(ctx, batch, label, use_model=True):
         if len(ctx.prop_failures) >= 20:
             break                                        # enough new violations to report; do not burn watchdog time
         ops = OPS_TRACE if k % 3 == 2 else OPS
-        case = {"files": files, "loads": loads, "interleave": interleave, "ops": ops}
-        rec = run_impl(files, loads, root, interleave, ops)
+        pristine = bool(pristine_share) and (k % pristine_share == pristine_share - 1)
+        case = {"files": files, "loads": loads, "interleave": interleave, "ops": ops, "pristine": pristine}
+        rec = run_impl(files, loads, root, interleave, ops, pristine)
+        if rec["stage"] and rec["fail"][0] == "timeout":
+            ctx.count("watchdog_hit_retried")          # only a hang that survives the long limit is reported
+            _alarm_s[0] = ALARM_RETRY_S
+            try:
+                rec = run_impl(files, loads, root, interleave, ops, pristine)
+            finally:
+                _alarm_s[0] = ALARM_S
         rec["ops"] = ops
         feats = graph_features(files)
         n_alias = len(rec["snap"].alias_ids()) if rec.get("snap") else 0
         ctx.case(case, nontrivial=n_alias > 0 or rec["stage"] is not None)
         ctx.observe("stream", label)
+        ctx.observe("pristine", pristine)
         ctx.observe("n_aliases", min(n_alias, 12))
         ctx.observe("wildcards", min(len(feats["wildcards"]), 4))
         ok = evaluate(ctx, files, loads, rec, case)
         if not ok:
             continue
-        if rec["pre_unstable"] or not rec["post_structure_same"]:
+        if rec["pre_unstable"] or not rec["post_structure_same"] or not use_model:
             ctx.count("not_abstractable")               # the tree kept changing under repeated wildcard expansion
+            report_partial(ctx, case, rec)
             continue
         live.append((case, rec))
-    if not use_model or not live:
+    if not live:
         return
-    outs = ctx.model([["run", r["heap"][0], r["heap"][1], r["ops"]] for _, r in live])
+    outs = ctx.model([["run", r["heap"][0], r["heap"][1], list(r["ops"]) + ["verdicts"]] for _, r in live])
     for (case, rec), mo in zip(live, outs):
         if not mo or mo[0] == "bad-input" or mo[0][0] != "class":
             ctx.tie_failure("correspondence", "model rejected the heap term", {"model": mo}, case)
+            report_partial(ctx, case, rec)
             continue
-        cls = mo[0][1:]
+        verdicts = next((x[1] for x in mo[2:] if x and x[0] == "verdicts"), None)
+        report_partial(ctx, case, rec, verdicts)
+        for v in verdicts or []:
+            ctx.observe("link_verdict", v)
+        cls, walks = mo[0][1:7], (mo[0][7] if len(mo[0]) > 7 else None)
+        fbc = mo[0][8] if len(mo[0]) > 8 else []
+        if fbc:
+            # a failed resolve_target that stored links of other aliases on the way: excluded by
+            # C06_failed_resolution_changes_nothing where direct, chains_complete and unique_paths hold
+            ctx.observe("failed_but_changed(direct,complete,unique)", "".join(str(c) for c in cls[2:5]))
+            if cls[2] == 1 and cls[3] == 1 and cls[4] == 1:
+                ctx.tie_failure("correspondence", "model contradicts C06_failed_resolution_changes_nothing", {"aliases": fbc}, case)
+            elif cls[2] == 1 and cls[3] == 1 and not hasattr(ctx, "_c06_fbc"):
+                ctx._c06_fbc = {"case": case, "aliases": fbc, "heap": rec["heap"]}
         ctx.observe("heap_class(wf,noflag,direct,complete,unique,targets_complete)", "".join(str(c) for c in cls))
         if cls[0] != 1 or cls[1] != 1:
             ctx.tie_failure("correspondence", "abstracted heap is not well-formed (wf / no flag raised)", {"class": cls}, case)
@@ -622,17 +715,28 @@ def run_batch(ctx, batch, label, use_model=True):
         if mo[1] != rec["states"][0]:
             ctx.tie_failure("correspondence", "heap decoding (state before any operation)", {"model": mo[1], "impl": rec["states"][0]}, case)
             continue
-        # the Python attribution must agree with the Coq gap predicates: C06_all_or_nothing_modulo_known excludes any
-        # dangling stored link on a heap that is direct, complete and has unique paths
-        att = rec.get("attributed", [])
-        if att and cls[5] == 1 and cls[4] == 1:
-            ctx.property_failure(case, {"partial_chain_outside_known_gap": att,
+        # C06_all_or_nothing_modulo_known excludes any dangling stored link on a heap with complete targets and unique paths
+        if rec.get("partial") and cls[5] == 1 and cls[4] == 1:
+            ctx.property_failure(case, {"partial_chain_outside_known_gap": sorted(rec["partial"]),
                                         "model_gap_predicates(direct,complete,unique,targets_complete)": cls[2:]}, finding=None)
         exp, got = expected_trace(rec), normalise_model(mo)
         if exp != got:
             first = next(((a, b) for a, b in zip(exp, got) if a != b), (exp[len(got):][:1], got[len(exp):][:1]))
             ctx.tie_failure("correspondence", "resolve_aliases / final_target (model) vs GriffeLoader", {"impl": first[0], "model": first[1]}, case)
         ctx.count("model_compared")
+        # the static walk (C06_resolution_outcome_is_static / C06_failure_is_stable): on direct heaps with complete chains and
+        # unique paths, the pure walk over the heap *before* any resolution predicts what dereferencing every alias
+        # reports *after* two resolve_aliases() - class, and the alias an AliasResolutionError names
+        if walks is not None and cls[2] == 1 and cls[3] == 1 and cls[4] == 1 and "deref" in rec["ops"]:
+            derefs = rec["obs"][rec["ops"].index("deref")][1]
+            for (path, _t, _p), w, d in zip(rec["states"][0], walks, derefs):
+                ctx.observe("static_walk", w[0])
+                if w[0] == "linked":
+                    continue
+                if not ((w[0] == "ok" and d[0] == "ok") or (w[0] == "cyc" and d[0] == "cyc") or (w[0] == "are" and d == ["are", w[1]])):
+                    ctx.tie_failure("correspondence", "static walk (model, heap before resolution) vs dereference after resolve_aliases",
+                                    {"alias": path, "walk": w, "dereference": d}, case)
+                    break
         for tag in ("fuel", "bad"):
             if any(isinstance(d, list) and d and d[0] == tag for x in got if x and x[0] == "deref" for d in x[1]):
                 ctx.tie_failure("correspondence", f"model hit {tag}", {}, case)
@@ -796,7 +900,7 @@ class LoaderTrace:
         loader.resolve_module_aliases, loader.load, loader.expand_wildcards = rma, load, expand
 
 
-def run_external(ctx, files, loads, external, label):
+def run_external(ctx, files, loads, external, label, _retry=False):
     """Implementation vs property with packages side-loaded during resolve_aliases (three calls)."""
     import griffe
     root = str(ctx.scratch / "ext")
@@ -824,6 +928,13 @@ def run_external(ctx, files, loads, external, label):
     def escape(what, r):
         """Something left load()/resolve_aliases().  C06-F6: the members dict of an object was changed by a nested
         expansion (reached through a side-load) while an enclosing frame iterates over it."""
+        if r[0] == "timeout" and not _retry:
+            ctx.count("watchdog_hit_retried")
+            _alarm_s[0] = ALARM_RETRY_S
+            try:
+                return run_external(ctx, files, loads, external, label, _retry=True)
+            finally:
+                _alarm_s[0] = ALARM_S
         iter_err = r[0] == "raise" and (
             (r[1][0] == "RuntimeError" and "changed" in r[2] and "during iteration" in r[2]) or
             (r[1][0] == "KeyError" and r[1][1][-1:] == ["del_member"] and r[2].strip("'\"").endswith("/*")))
@@ -859,7 +970,9 @@ def run_external(ctx, files, loads, external, label):
             for i in snap.alias_ids():
                 d = guarded(lambda i=i: deref(snap.objs[i]))
                 path, tgt = snap.nodes[i][1], calls[1]["state"][snap.alias_ids().index(i)][1]
-                if d[0] != "ok" or d[1][0] not in ("ok", "are", "cyc"):
+                if d[0] != "ok":
+                    return escape(f"dereference of {path}", d)
+                if d[1][0] not in ("ok", "are", "cyc"):
                     return fail("dereference", {"alias": path, "outcome": d[:3]})
                 ctx.observe("side_loaded_deref", d[1][0] + ("/resolved" if tgt else "/unresolved"))
                 if tgt and d[1][0] != "ok":
@@ -931,7 +1044,7 @@ def replay_witnesses(ctx):
             continue
         rec = run_impl(files, w.get("loads", ["p"]), root)
         ok = False
-        if rec["stage"] is None and fid == "C06-F3":
+        if rec["stage"] is None and fid in ("C06-F3", "C06-F9"):
             snap = rec["snap"]
             for i, (path, tgt, _), d in zip(snap.alias_ids(), rec["states"][2], rec["obs"][2][1]):
                 if tgt and d[0] in ("are", "cyc") and classify_partial(snap, i) == fid:
@@ -952,7 +1065,8 @@ def replay_corpus(ctx):
             run_external(ctx, c["files"], c["loads"], c["external"], "corpus(side-loading)")
         else:
             batch.append((c["files"], c.get("loads", ["p"]), bool(c.get("interleave", False))))
-    run_batch(ctx, batch, "corpus")
+    run_batch(ctx, batch, "corpus", pristine_share=0)
+    run_batch(ctx, batch, "corpus(pristine)", pristine_share=1)
 
 
 def explore(ctx):
@@ -1032,8 +1146,13 @@ def search(ctx):
         run_batch(ctx, [(g, ["p"], False)], "search-exhaustive", use_model=False)
         if ctx.prop_failures:
             return
-    for _ in range(6000):
-        run_batch(ctx, [(random_graph(rng, MODS5, NAMES), ["p"], False)], "search-random", use_model=False)
+    for k in range(6000):
+        g = random_graph(rng, MODS5, NAMES) if k % 3 else exports_family(rng)
+        run_batch(ctx, [(g, ["p"], False)], "search-random", use_model=False, pristine_share=0 if k % 2 else 1)
+        if ctx.prop_failures:
+            return
+    for k in range(1500):
+        run_external(ctx, random_external_wild(rng) if k % 2 else random_external(rng), [rng.choice(["p", "q", "_p"])], True, "search-side-loading")
         if ctx.prop_failures:
             return
 
@@ -1049,7 +1168,25 @@ def replay(ctx, data):
         print("#", m)
         print("    " + s.replace("\n", "\n    "))
     ctx.scratch.mkdir(parents=True, exist_ok=True)
-    rec = run_impl(files, case.get("loads", ["p"]), str(ctx.scratch / "pk"), bool(case.get("interleave")), case.get("ops", OPS))
+    if "external" in case:                                # a side-loading case: load, then three resolve_aliases(external=...)
+        import griffe
+        root = str(ctx.scratch / "ext")
+        write_packages(files, root)
+        loader = griffe.GriffeLoader(search_paths=[root], allow_inspection=False)
+        for pkg in case.get("loads", ["p"]):
+            print("load", pkg, guarded(lambda: loader.load(pkg, try_relative_path=False))[0])
+        for k in range(3):
+            r = guarded(lambda: loader.resolve_aliases(implicit=True, external=case["external"]))
+            print(f"resolve_aliases(external={case['external']}) call {k + 1}:", r[:3] if r[0] != "ok" else [sorted(r[1][0]), r[1][1]])
+            if r[0] != "ok":
+                break
+            print("   collection", sorted(loader.modules_collection.members), "unexpanded", unexpanded_wildcards(loader),
+                  "leaked", leaked_wildcards(loader))
+            print("   ", Snapshot(loader).state())
+        shutil.rmtree(ctx.scratch, ignore_errors=True)
+        return 0
+    rec = run_impl(files, case.get("loads", ["p"]), str(ctx.scratch / "pk"), bool(case.get("interleave")), case.get("ops", OPS),
+                   bool(case.get("pristine")))
     print("stage:", rec["stage"], rec["fail"])
     for o, st in zip(rec["obs"], rec["states"][1:]):
         print(o)
